@@ -17,12 +17,12 @@ import (
 )
 
 func EngineFor(prop string) Engine {
+	if f, ok := extraEngines[prop]; ok {
+		return f()
+	}
 	switch prop {
 	case "C01", "C02", "C03", "C04", "C05", "C06", "C07", "C12", "C13":
 		return BridgeEngine{}
-	}
-	if f, ok := extraEngines[prop]; ok {
-		return f()
 	}
 	return nil
 }
